@@ -98,6 +98,7 @@ type c02Drv struct {
 	main   *c02Env
 	conns  map[string]*c02Env
 	cmu    sync.Mutex
+	slowMu sync.Mutex // serializes repeated real-time attempts after a stalled machine spoilt the concurrent ones
 	useAPI bool
 }
 
@@ -612,13 +613,23 @@ func (d *c02Drv) runScript(c kit.Case, m kit.M) kit.Verdict {
 		}
 		attempts := 1
 		if tr == "api" {
-			attempts = 3 // real time-outs involved: a failure must reproduce
+			attempts = 6 // real time-outs involved: a failure must reproduce 3 times (3 more, one at a time, after a stall)
 		}
 		var o c02Obs
 		var ok bool
 		var why string
 		inconclusive := 0
+		serialized := false
 		for a := 0; a < attempts; a++ {
+			if tr == "api" && a == 3 {
+				if inconclusive < 3 {
+					break // reproduced 3 times, at least once conclusively
+				}
+				// every concurrent attempt was spoilt by a stalled machine: try again one at a time
+				d.slowMu.Lock()
+				serialized = true
+				inconclusive = 0
+			}
 			sc := d.newScenario(d.main)
 			sc.steps, sc.term, sc.npre = steps, kit.Str(m["term"]), npre
 			tclass := "long"
@@ -676,8 +687,11 @@ func (d *c02Drv) runScript(c kit.Case, m kit.M) kit.Verdict {
 				}
 			}
 		}
+		if serialized {
+			d.slowMu.Unlock()
+		}
 		if !ok {
-			if inconclusive == attempts {
+			if serialized && inconclusive == 3 {
 				return kit.Verdict{Case: c.Index, Infra: true, Msg: fmt.Sprintf("api transport: machine too slow for a conclusive real-time run (%s)", o)}
 			}
 			if delay > 0 {
